@@ -29,22 +29,27 @@ def fidx(F, adt, name):
             return ("f", i, name)
 
 
+def range_helpers(F, rep, rule):
+    """get_data_range = (sh_offset, sh_offset + sh_size), get_file_data_range = (p_offset, p_offset + p_filesz), checked arithmetic"""
+    for q, a, b, forbidden in (("section::SectionHeader::get_data_range", "sh_offset", "sh_size", ()),
+                               ("segment::ProgramHeader::get_file_data_range", "p_offset", "p_filesz", ("p_memsz",))):
+        fn = F.fn(q)
+        if fn is None:
+            rep.bad(rule, q, "-", "anchor missing: %s" % q)
+            continue
+        an = analyze_fn(F, fn)
+        outs = [norm(v) for v, _ in ok_outcomes(an)]
+        want = ("agg", "tuple", None, (F_(P(1), a), ADD(F_(P(1), a), F_(P(1), b))))
+        rep.require(outs == [want], rule, q, wh(fn["span"]), "(%s, %s + %s) in checked arithmetic" % (a, a, b),
+                    "%s yields %s, the ABI designates [%s, %s+%s)" % (q, [show(o) for o in outs], a, a, b))
+
+
 def run(ctx, rep):
     F = ctx.facts()
     prov.set_program(program(F))
     me, hdr = P(1), P(2)
     # ---- range helpers
-    for q, a, b, forbidden in (("section::SectionHeader::get_data_range", "sh_offset", "sh_size", ()),
-                               ("segment::ProgramHeader::get_file_data_range", "p_offset", "p_filesz", ("p_memsz",))):
-        fn = F.fn(q)
-        if fn is None:
-            rep.bad("range", q, "-", "anchor missing: %s" % q)
-            continue
-        an = analyze_fn(F, fn)
-        outs = [norm(v) for v, _ in ok_outcomes(an)]
-        want = ("agg", "tuple", None, (F_(P(1), a), ADD(F_(P(1), a), F_(P(1), b))))
-        rep.require(outs == [want], "range", q, wh(fn["span"]), "(%s, %s + %s) in checked arithmetic" % (a, a, b),
-                    "%s yields %s, the ABI designates [%s, %s+%s)" % (q, [show(o) for o in outs], a, a, b))
+    range_helpers(F, rep, "range")
     # ---- get_bytes
     fn = F.fn("<&'data [u8] as parse::ReadBytesExt<'data>>::get_bytes")
     if fn is None:
